@@ -774,21 +774,23 @@ Section PartSim.
     producers_before p before gens ->
     exists ps', fold_left (fun acc gen => rdo ps0 <- acc; run_generation body c (Some fx) ps0 gen) gens (ROk ps) = ROk ps'
       /\ (forall g, In g p -> fsub' (p_store ps') g)
+      /\ (forall g, In g (before ++ concat gens) -> sel_present (p_store ps') g)
       /\ trx (p_tr ps) (p_tr ps').
   Proof.
     induction gens as [|gen rest IH]; intros before ps Hin Hsub Hdone Hbp Hpb.
-    - exists ps. cbn. split; [reflexivity|]. split; [exact Hsub | apply tr_ext_refl].
+    - exists ps. cbn. rewrite app_nil_r. split; [reflexivity|]. split; [exact Hsub|]. split; [exact Hdone | apply tr_ext_refl].
     - destruct Hpb as [P1 P2].
       destruct (run_generation_part ps gen (fun f Hf => Hin gen f (or_introl eq_refl) Hf) Hsub) as [ps1 [E1 [E3 [E4 [E5 E6]]]]].
       { intros f q g Hf Hq Hp. apply Hdone. eapply P1; eauto. }
-      destruct (IH (before ++ gen) ps1) as [ps' [F1 [F3 F4]]].
+      destruct (IH (before ++ gen) ps1) as [ps' [F1 [F3 [F5 F4]]]].
       + intros g f Hg Hf. apply (Hin g f (or_intror Hg) Hf).
       + exact E3.
       + intros g Hg. apply in_app_or in Hg as [Hg|Hg]; [apply E4; [now apply Hbp | now apply Hdone] | now apply E5].
       + intros g Hg. apply in_app_or in Hg as [Hg|Hg]; [now apply Hbp | apply (Hin gen g (or_introl eq_refl) Hg)].
       + exact P2.
-      + exists ps'. cbn [fold_left rbind]. rewrite E1. split; [exact F1|]. split; [exact F3|].
-        eapply tr_ext_trans; eauto.
+      + exists ps'. cbn [fold_left rbind concat]. rewrite E1. split; [exact F1|]. split; [exact F3|]. split.
+        * intros g Hg. apply F5. now rewrite <- app_assoc.
+        * eapply tr_ext_trans; eauto.
   Qed.
 End PartSim.
 
@@ -806,7 +808,9 @@ Theorem part_from_substore_reads body user p inputs D fx rs :
   (forall g, In g p -> fsub body p inputs D rs g) ->
   exists ps, map_run_sel body p inputs user (Some fx) rs = ROk ps
     /\ (forall g, In g p -> fsub body p inputs D (p_store ps) g)
-    /\ Forall (dump_den body p inputs D) (p_tr ps).
+    /\ Forall (dump_den body p inputs D) (p_tr ps)
+    /\ (forall g o, In g p -> is_mapped g = false -> In o (fouts g) ->
+          dict_get (st_val (p_store ps)) o = Some (Ok (dval D o))).
 Proof.
   intros Harity Hreq Hden Htopo Hpb Hall Hval Hmask Hreads Hwhole Hsub.
   unfold request_ok in Hreq. apply andb_true_iff in Hreq as [Hreq _]. apply andb_true_iff in Hreq as [Hok Hnd].
@@ -823,11 +827,14 @@ Proof.
   { intros q Hq. apply Henv. intros X. apply in_flat_map in X as [f [Hf X]]. exact (Hq f Hf X). }
   unfold map_run_sel. rewrite Hval. cbn [lift rbind]. unfold all_shapes. rewrite Hshapes. cbn [lift rbind].
   destruct (generations_part body Harity p inputs D HD Hfok Huniq Hin_disj Henv' fx Hmask Hreads Hwhole (generations p) []
-              {| p_store := rs; p_out := []; p_tr := [] |}) as [ps [E1 [E3 [trx [E4 E5]]]]].
+              {| p_store := rs; p_out := []; p_tr := [] |}) as [ps [E1 [E3 [E6 [trx [E4 E5]]]]]].
   - intros gen f Hg Hf. eapply generations_In; eauto.
   - exact Hsub.
   - intros g [].
   - intros g [].
   - exact Hpb.
-  - exists ps. split; [exact E1|]. split; [exact E3|]. cbn [app p_tr] in E4. now rewrite E4.
+  - exists ps. split; [exact E1|]. split; [exact E3|]. cbn [app p_tr] in E4. split; [now rewrite E4|].
+    intros g o Hg Hm Ho. specialize (E6 g (Hall g Hg)). unfold sel_present in E6. rewrite Hm in E6.
+    pose proof (E3 g Hg) as Hs. unfold fsub in Hs. rewrite Hm in Hs.
+    destruct (Hs o Ho) as [Hn|Hv]; [exfalso; exact (E6 o Ho Hn) | exact Hv].
 Qed.
